@@ -610,6 +610,81 @@ theorem euler_step_cb_upper_side_redundant (keys : List σ) (comps : List (EqSol
   rw [this]
   exact hrun0
 
+/-- **iterated safe steps stay admissible** (the third sentence of the property as a statement about the whole explicit-Euler
+    iteration, not one step): start from ANY non-negative `c₀`, repeat `y ← y + h·f(y)` with the step `h = max_euler_step_cb(y)`
+    the callback advertises at the current state.  For every system that has the callback and every number of steps `n`:
+    all iterates are non-negative, carry exactly the element totals of `c₀`, and stay below `upper_conc_bounds(c₀)` — the
+    elemental supply of the INITIAL state. -/
+theorem euler_iterates_admissible (keys : List σ) (comps : List (EqSolve.Comp α)) (rs : List (Reaction σ α))
+    (hav : callbackAvailable keys comps rs = true) (hkl : keys.length = comps.length)
+    (hnd : ∀ comp ∈ comps, (comp.map Prod.fst).Nodup) (hc : ∀ comp ∈ comps, ∀ p ∈ comp, p.1 ≠ 0 → 0 < p.2)
+    (c0 : List α) (hc0 : ∀ v ∈ c0, 0 ≤ v) (hl0 : c0.length = comps.length)
+    (n : ℕ) (y : List α) (hrun : eulerIter keys comps rs n c0 = .ok y) :
+    (∀ v ∈ y, 0 ≤ v) ∧ y.length = comps.length ∧
+      (∀ k, k ≠ 0 → EqSolve.compositionConc comps y k = EqSolve.compositionConc comps c0 k) ∧
+      ∀ ub0, EqSolve.upperConcBounds comps c0 = .ok ub0 →
+        ∀ (i : ℕ) yi u, y[i]? = some yi → ub0[i]? = some (some u) → yi ≤ u := by
+  have inv : ∀ (n : ℕ) (z y : List α), (∀ v ∈ z, 0 ≤ v) → z.length = comps.length →
+      (∀ k, k ≠ 0 → EqSolve.compositionConc comps z k = EqSolve.compositionConc comps c0 k) →
+      eulerIter keys comps rs n z = .ok y →
+      (∀ v ∈ y, 0 ≤ v) ∧ y.length = comps.length ∧
+        (∀ k, k ≠ 0 → EqSolve.compositionConc comps y k = EqSolve.compositionConc comps c0 k) := by
+    intro n
+    induction n with
+    | zero =>
+      intro z y hz hzl hzt hr
+      simp only [eulerIter, Except.ok.injEq] at hr
+      subst hr
+      exact ⟨hz, hzl, hzt⟩
+    | succ n ih =>
+      intro z y hz hzl hzt hr
+      simp only [eulerIter] at hr
+      cases hh : maxEulerStepCb keys comps rs z with
+      | error e => rw [hh] at hr; simp at hr
+      | ok h =>
+        rw [hh] at hr
+        simp only at hr
+        cases hf : fvec keys rs z with
+        | error e => rw [hf] at hr; simp at hr
+        | ok f =>
+          rw [hf] at hr
+          simp only at hr
+          obtain ⟨ub, f', _, hf', _, _, hbox⟩ := euler_step_cb_safe keys comps rs z h hh hz hc
+          rw [hf] at hf'
+          cases hf'
+          have hfl : z.length = f.length := by rw [fvec_ok hf]; simp [hzl, hkl]
+          apply ih (eulerNext z h f) y
+          · intro v hv
+            obtain ⟨j, hj, rfl⟩ := List.mem_iff_getElem.mp hv
+            have hj' := List.getElem?_eq_getElem hj
+            rw [eulerNext_getElem?] at hj'
+            cases hyj : z[j]? with
+            | none => rw [hyj] at hj'; simp at hj'
+            | some yj =>
+              cases hfj : f[j]? with
+              | none => rw [hyj, hfj] at hj'; simp at hj'
+              | some fj =>
+                rw [hyj, hfj] at hj'
+                simp only [Option.some.injEq] at hj'
+                rw [← hj']
+                exact (hbox j yj fj hyj hfj).1
+          · rw [eulerNext_length z f h hfl, hzl]
+          · intro k hk
+            rw [euler_update_keeps_totals keys comps rs z f h hav hkl hzl hnd hf k hk, hzt k hk]
+          · exact hr
+  obtain ⟨hy, hyl, hyt⟩ := inv n c0 y hc0 hl0 (fun _ _ => rfl) hrun
+  refine ⟨hy, hyl, hyt, ?_⟩
+  intro ub0 hub0 i yi u hyi hu
+  have hil : i < comps.length := by
+    have := (List.getElem?_eq_some_iff.mp hyi).1
+    omega
+  have hv := upper_bound_valid comps c0 y ub0 hub0 hyl hy
+    (fun comp hcomp p hp hk => (hc comp hcomp p hp hk).le) hyt i hil u hu
+    (fun p hp hk => hc _ (List.getElem_mem _) p hp hk)
+  have : y[i]'(hyl ▸ hil) = yi := (List.getElem?_eq_some_iff.mp hyi).2
+  rw [← this]
+  exact hv
+
 end Conservation
 
 /-! ## the generated right-hand side: quasi-positivity -/
@@ -908,6 +983,8 @@ example : fvecCstr exKeys exRxns ⟨"feedratio", [("X1", "fc_X1"), ("X2", "fc_X2
   decide +kernel
 example : maxEulerStepCbCstr exKeys exComps exRxns ⟨"feedratio", [("X1", "fc_X1"), ("X2", "fc_X2"), ("X3", "fc_X3"), ("X3b", "fc_X3b")]⟩
     [("feedratio", 1 / 2), ("fc_X1", 2), ("fc_X2", 0), ("fc_X3", 0), ("fc_X3b", 1)] [1 / 2, 1, 0, 0] = .ok 1 := by decide +kernel
+/-- three advertised steps from (1/2, 1, 2, 0): still non-negative, 17/2 hydrogen units in total -/
+example : eulerIter exKeys exComps exRxns 3 [1 / 2, 1, 2, 0] = .ok [88043003 / 16010001, 96011999 / 64040004, 0, 12002 / 16010001] := by decide +kernel
 /-- an unbalanced system gets no callback (`extra['max_euler_step_cb'] is None`) -/
 example : callbackAvailable ["X1", "X2"] [[(1, 1)], [(1, 2)]]
     [({ reac := [("X2", 1)], prod := [("X1", 1)], param := 1 } : Reaction String ℚ)] = false := by decide +kernel
